@@ -69,6 +69,7 @@ fn main() {
     harness::sched::install_quiet_panic_hook();
     let _ = harness::cond::tie_policy();
     let code = match id.as_str() {
+        "C16" => run(&props::cli16::CliOptions, tier, replay, hashes),
         "C15" => run(&props::cli15::CliFaithful, tier, replay, hashes),
         "C10" => run(&props::sampling::Sampling, tier, replay, hashes),
         "C09" => run(&props::early::EarlyStop, tier, replay, hashes),
